@@ -320,6 +320,25 @@ def playUrlWith (guarded td : Bool) (localFile v2 : Bool) : Prog :=
 
 def playUrl (localFile v2 : Bool) : Prog := playUrlWith true true localFile v2
 
+/-- play_url with the evaluation of the call's own arguments (`int(kwargs.get("position", 0))`)
+    as an explicit fault point: it can fail by itself (ValueError / TypeError).  In the code it
+    sits inside the inner try, after the connection was opened (`outside = false`);
+    `outside = true` is the placement between takeover() and the try. -/
+def playUrlArgs (outside : Bool) (localFile v2 : Bool) : Prog :=
+  .tryFinally
+    (Prog.ofList [
+      (if localFile then .seq .await (.new .server) else .skip),
+      .acq airplayTakeover,
+      (if outside then .await else .skip),
+      .tryFinally
+        (Prog.ofList [.await, .new .playConn,
+                      (if outside then .skip else .await),         -- position = int(kwargs.get("position", 0))
+                      .new .playTask,
+                      playerPlay true v2])
+        (Prog.ofList ((airplayTakeover.map .relOwn) ++ [.relOwn .playTask, .relOwn .fbtask, .relOwn .eventch,
+          .relOwn .playConn])) ])
+    (if localFile then .seq (.relOwn .server) .await else .skip)
+
 /-! ## The pinned tree before the repair (D13 a–e) -/
 namespace Orig
 
